@@ -142,7 +142,35 @@ fn paren_variants(t: &Ast, ops: &OpSet) -> Vec<(String, String)> {
     out
 }
 
-fn deep_layouts(out: &mut WorkerOut) {
+/// inputs the parser rejects at different places (first operand, after an operator, inside
+/// brackets / calls / maps / conditionals, lexical errors)
+const REJECTED: &[&str] = &["(", "((((", "max(1,", "[1, 2,", "{1 :", "1 +", "a ?", "a ? b :", "f(g(h(", "- ", "1 )", "'abc", "1..2", "[(])", "a not", "x = (", "* 3", "{[("];
+
+fn deep_layouts(after_rejections: usize, out: &mut WorkerOut) {
+    if after_rejections > 0 {
+        // history ladder: the thread parses rejected inputs, and after 1, 2, 4, ... rounds (one
+        // round = every input of REJECTED once) the layout grid is checked again; a layout rule
+        // must not depend on what was parsed (and rejected) before
+        let mut done = 0usize;
+        let mut next = 1usize;
+        while done < after_rejections {
+            while done < next.min(after_rejections) {
+                for r in REJECTED {
+                    let _ = engine::parse(r);
+                    out.evals += 1;
+                }
+                done += 1;
+            }
+            layout_grid(done, out);
+            next *= 2;
+        }
+        return;
+    }
+    layout_grid(0, out);
+}
+
+fn layout_grid(after_rejections: usize, out: &mut WorkerOut) {
+    let hist = if after_rejections > 0 { "after-rejected-inputs:" } else { "" };
     let grid = [0usize, 1, 8, 31, 32, 33, 64, 100];
     let tails = ["x + 1", "f(x , [y])", "- x ++", "c ? x : y"];
     for k in grid {
@@ -151,7 +179,12 @@ fn deep_layouts(out: &mut WorkerOut) {
             let plain = format!("{}{}", prefix, tail);
             let base = match engine::parse(&plain) {
                 Res::Ok(a) => a,
-                _ => continue,
+                _ => {
+                    // not an accepted program (here): nothing to re-lay-out. (A program that stops
+                    // being accepted because of earlier calls is C16's finding, not C11's.)
+                    out.count("deep_base_rejected", 1);
+                    continue;
+                }
             };
             for m in grid {
                 out.evals += 1;
@@ -167,8 +200,8 @@ fn deep_layouts(out: &mut WorkerOut) {
                         other => {
                             let class = |n: usize| if n >= 31 { ">=31" } else { "<31" };
                             out.fail(
-                                format!("deep-{}:changes-parse:postfix-statements{}:multiplicity{}", what, class(k), class(m)),
-                                format!("deep|{} earlier postfix statements, {} x{} in {:?}", k, what, m, tail),
+                                format!("{}deep-{}:changes-parse:postfix-statements{}:multiplicity{}", hist, what, class(k), class(m)),
+                                format!("deep|{}{} earlier postfix statements, {} x{} in {:?}", if after_rejections > 0 { format!("after {} x {} rejected inputs: ", after_rejections, REJECTED.len()) } else { String::new() }, k, what, m, tail),
                                 format!("the plain program is accepted; this layout gives {:?}", other.class()),
                             );
                         }
@@ -198,10 +231,10 @@ impl Prop for C11 {
                 },
                 Stage {
                     name: "deep".into(),
-                    len: 1,
+                    len: 2,
                     chunk: 1,
                     timeout: Duration::from_secs(300),
-                    what: "grid of (number of earlier postfix statements, paren multiplicity) and very long whitespace runs".into(),
+                    what: "grid of (number of earlier postfix statements, paren multiplicity) and very long whitespace runs; case 1: the same after the thread has parsed 18 kinds of rejected input 1100 (thorough: 66000) times each".into(),
                 },
                 Stage {
                     name: "parens".into(),
@@ -223,7 +256,11 @@ impl Prop for C11 {
     fn run(&self, tier: Tier, stage: usize, a: u64, b: u64, out: &mut WorkerOut) {
         let ops = OpSet::builtin();
         if stage == 1 {
-            deep_layouts(out);
+            if a == 0 {
+                deep_layouts(0, out);
+            } else {
+                deep_layouts(tier.pick(1100, 66000), out);
+            }
             return;
         }
         let stage = if stage == 2 { 1 } else { stage };
